@@ -48,6 +48,7 @@ class Dataset:
         self.nq = int(nq or rng.integers(1, 9))
         self.nat = int(nat or rng.choice([1, 1, 2, 2, 3, 4, 5, 7, 10]))
         self.np = 3 * self.nat
+        self.nm = int(rng.choice([1, 1, 2, 4]))            # formula units per cell (enters no quantity cij computes)
         self.lattice = bool(rng.random() < 0.5) if lattice is None else lattice
         vmax = vmax or float(rng.uniform(300.0, 900.0))
         self.volumes = numpy.linspace(vmax, vmax * float(rng.uniform(0.74, 0.82)), self.nv)
@@ -141,7 +142,7 @@ class Dataset:
         d = Path(d)
         d.mkdir(parents=True, exist_ok=True)
         fr = self.freq(self.volumes)
-        lines = ["synthetic", "", "nv nq np nm na", f"{self.nv} {self.nq} {self.np} 1 {self.nat}", ""]
+        lines = ["synthetic", "", "nv nq np nm na", f"{self.nv} {self.nq} {self.np} {self.nm} {self.nat}", ""]
         pst = -numpy.gradient(self.energies) / numpy.gradient(self.volumes) * consts.RY_BOHR3_TO_GPA * 10.0
         vperm = pres.get("vol_perm") or list(range(self.nv))
         qperm = pres.get("q_perm") or list(range(self.nq))
@@ -172,7 +173,7 @@ class Dataset:
             fmt = "%.12E" if pres.get("exponent") else "%.10f"          # (exponent notation carries as many digits as the plain one)
             t.append(f"{v:.10f} " + " ".join(fmt % self.static_gpa(k, numpy.array([v]))[0] for k in cols))
         if self.lattice:
-            t.append("lattice parameters")
+            t.append(str(self.rng.choice(["lattice parameters", "lattice_a lattice_b lattice_c", "a b c", "# axes (bohr)"])))
             ax = self.axes(self.static_volumes)
             for i in rperm:
                 t.append(" ".join(f"{x:.12f}" for x in ax[i]))
